@@ -1,9 +1,233 @@
-/- C03 - model (stub: not built yet) -/
+/-
+C03 - model of trust store loading and the authenticity decision:
+`loadX509TrustStores` / `loadX509TrustStoresWithType` (verifier/helpers.go: scheme -> store type,
+dedup set, `strings.Cut` at ":", type filter, first load error aborts),
+`verifyAuthenticity` (verifier/verifier.go: empty set is a failure, otherwise
+`signature.VerifyAuthenticity` of notation-core-go = some certificate of the chain is identical
+to a loaded certificate), the choice of the applicable statement
+(`OCIDocument.GetApplicableTrustPolicy`: only its `trustStores` list is used) and how the
+authenticity result decides acceptance under the level's action.
+
+Certificates are abstract identifiers (equality of identifiers = equality of the DER bytes);
+the world of trust stores is an association list `(type, name) -> load result`.
+-/
 import NotationModel.Basic
+import NotationModel.Generated.C03
 open Lean
 
 namespace NotationModel.C03
 
-def judge (_ : Json) : Except String Json := .error "C03: model not built yet"
+abbrev CertId := Nat
+
+/-- signing scheme of the signature (`notary.x509` / `notary.x509.signingAuthority`); any other
+value is refused by notation-core-go when the envelope is parsed, before trust stores are touched -/
+inductive Scheme | x509 | signingAuthority
+  deriving DecidableEq, Repr, FromJson, ToJson
+
+/-- verification level of the applicable statement: authenticity is enforced by `strict` and
+`permissive` and logged by `audit` -/
+inductive Level | strict | permissive | audit
+  deriving DecidableEq, Repr, FromJson, ToJson
+
+/-- one named store of the world: what `GetCertificates(ty, name)` answers -/
+structure Store where
+  ty : Text
+  name : Text
+  ok : Bool                -- the load succeeds
+  certs : List CertId      -- certificates returned when it succeeds
+  deriving DecidableEq, Repr, FromJson, ToJson
+
+/-- one trust policy statement, as far as it matters here (`level`: its verification level) -/
+structure Stmt where
+  scopes : List Text
+  trustStores : List Text  -- "type:name" values, as written
+  level : Level
+  deriving DecidableEq, Repr, FromJson, ToJson
+
+structure Input where
+  scheme : Scheme
+  chain : List CertId      -- the signature's certificate chain, leaf first
+  statements : List Stmt
+  repo : Text              -- artifact path (reference without "@digest")
+  world : List Store
+  backend : String         -- annotation: "mem" (instrumented store) | "dir" (real x509TrustStore)
+  format : String          -- annotation: "jws" | "cose"
+  deriving Repr, FromJson, ToJson
+
+/-- one `GetCertificates` call seen by the trust store -/
+structure Call where
+  ty : Text
+  name : Text
+  deriving DecidableEq, Repr, FromJson, ToJson
+
+inductive Result
+  | pass        -- authenticity ValidationResult without error
+  | fail        -- authenticity ValidationResult with an error
+  | noPolicy    -- no applicable statement: Verify returns before anything is loaded
+  deriving DecidableEq, Repr, FromJson, ToJson
+
+structure Obs where
+  result : Result
+  calls : List Call        -- GetCertificates calls, in call order
+  accepted : Bool          -- verifier.Verify returned no error (nothing else can fail in the scenario)
+  deriving DecidableEq, Repr, FromJson, ToJson
+
+/-! ### the world -/
+
+/-- load result of a store: `none` = the load fails (a store that does not exist fails too) -/
+abbrev World := Text → Text → Option (List CertId)
+
+def lookup : List Store → World
+  | [], _, _ => none
+  | s :: rest, t, n =>
+    if s.ty = t ∧ s.name = n then (if s.ok then some s.certs else none) else lookup rest t n
+
+/-! ### `loadX509TrustStores` -/
+
+/-- the `switch scheme` of `loadX509TrustStores`, from the extracted facts -/
+def storeTypeOf : Scheme → Text
+  | .x509 => Facts.c03TypeForX509
+  | .signingAuthority => Facts.c03TypeForSigningAuthority
+
+/-- `strings.Cut(s, ":")`: split at the first separator -/
+def cut : Text → Option (Text × Text)
+  | [] => none
+  | c :: rest =>
+    if c = Facts.c03Separator then some ([], rest)
+    else match cut rest with
+      | none => none
+      | some (t, n) => some (c :: t, n)
+
+/-- the loop of `loadX509TrustStoresWithType` over the remaining trust store values;
+`processed` is `processedStoreSet`. Result: the calls made and the certificates
+(`none` = an error was returned). -/
+def loadLoop (w : World) (want : Text) : List Text → List Text → List Call × Option (List CertId)
+  | [], _ => ([], some [])
+  | e :: rest, processed =>
+    if processed.contains e then loadLoop w want rest processed       -- loaded already
+    else match cut e with
+      | none => ([], none)                                            -- missing separator
+      | some (t, n) =>
+        if want ≠ t then loadLoop w want rest processed               -- another store type
+        else match w want n with
+          | none => ([⟨want, n⟩], none)                               -- the load error is returned
+          | some cs =>
+            let r := loadLoop w want rest (e :: processed)
+            (⟨want, n⟩ :: r.1, r.2.map (cs ++ ·))
+
+def loadStores (w : World) (scheme : Scheme) (trustStores : List Text) : List Call × Option (List CertId) :=
+  loadLoop w (storeTypeOf scheme) trustStores []
+
+/-! ### `verifyAuthenticity` -/
+
+/-- empty set -> failure; otherwise some chain certificate equals some trusted certificate -/
+def authentic (chain trusted : List CertId) : Bool :=
+  !trusted.isEmpty && chain.any (fun c => trusted.contains c)
+
+/-- the authenticity part of `processSignature`: (passes, calls) -/
+def authenticity (w : World) (scheme : Scheme) (chain : List CertId) (trustStores : List Text) : Bool × List Call :=
+  match loadStores w scheme trustStores with
+  | (calls, none) => (false, calls)
+  | (calls, some trusted) => (authentic chain trusted, calls)
+
+/-! ### `GetApplicableTrustPolicy` -/
+
+def wildcardScope : Text := ['*']
+
+/-- the loop of `GetApplicableTrustPolicy`: (wildcardPolicy, applicablePolicy) -/
+def selectLoop (repo : Text) : List Stmt → Option Stmt × Option Stmt → Option Stmt × Option Stmt
+  | [], acc => acc
+  | s :: rest, (wild, exact) =>
+    if s.scopes.contains wildcardScope then selectLoop repo rest (some s, exact)
+    else if s.scopes.contains repo then selectLoop repo rest (wild, some s)
+    else selectLoop repo rest (wild, exact)
+
+/-- an exact scope match takes precedence over the wildcard statement -/
+def applicable (stmts : List Stmt) (repo : Text) : Option Stmt :=
+  match selectLoop repo stmts (none, none) with
+  | (_, some s) => some s
+  | (w, none) => w
+
+/-! ### the scenario -/
+
+def run (i : Input) : Obs :=
+  match applicable i.statements i.repo with
+  | none => { result := .noPolicy, calls := [], accepted := false }
+  | some s =>
+    let r := authenticity (lookup i.world) i.scheme i.chain s.trustStores
+    { result := if r.1 then .pass else .fail, calls := r.2,
+      accepted := r.1 || s.level == .audit }
+
+/-! ### the property over observables
+
+Vocabulary: for the applicable statement's list `L` and the store type `want` the scheme
+requires, the *wanted names* are the names `n` of the values `want:n` of `L`, in list order. -/
+
+/-- names of the listed stores of type `want`, in list order (with repetitions) -/
+def wantedNames (want : Text) (l : List Text) : List Text :=
+  l.filterMap (fun e => match cut e with
+    | some (t, n) => if want = t then some n else none
+    | none => none)
+
+/-- some certificate of the chain is held (according to the world) in the store `want/n` -/
+def confers (w : World) (want : Text) (chain : List CertId) (n : Text) : Bool :=
+  match w want n with
+  | some cs => chain.any (fun c => cs.contains c)
+  | none => false
+
+def loadable (w : World) (want : Text) (n : Text) : Bool := (w want n).isSome
+
+/-- the store type the property demands for a scheme - written out, NOT taken from the code:
+`ca` for notary.x509, `signingAuthority` for notary.x509.signingAuthority -/
+def requiredType : Scheme → Text
+  | .x509 => ['c', 'a']
+  | .signingAuthority => ['s', 'i', 'g', 'n', 'i', 'n', 'g', 'A', 'u', 't', 'h', 'o', 'r', 'i', 't', 'y']
+
+/-- no value occurs twice -/
+def nodupB : List Text → Bool
+  | [] => true
+  | a :: as => !as.contains a && nodupB as
+
+def clauses (i : Input) (o : Obs) : Clauses :=
+  match applicable i.statements i.repo with
+  | none =>
+    [ ("no_applicable_statement_nothing_loaded_nothing_accepted",
+        o.result == .noPolicy && o.calls.isEmpty && !o.accepted) ]
+  | some s =>
+    let w := lookup i.world
+    let want := requiredType i.scheme
+    let wanted := wantedNames want s.trustStores
+    let wellFormed := s.trustStores.all (fun e => (cut e).isSome)
+    let names := o.calls.map (·.name)
+    [ ("result_present", o.result != .noPolicy),
+      -- passes only if some chain certificate is held in a listed store of the required type
+      ("pass_only_if_chain_certificate_in_listed_store_of_required_type",
+        o.result != .pass || wanted.any (confers w want i.chain)),
+      -- a listed store of the required type that cannot be loaded makes authenticity fail
+      ("unloadable_listed_store_of_required_type_fails",
+        wanted.all (loadable w want) || o.result != .pass),
+      -- a value without separator (impossible in a validated policy) fails as well
+      ("malformed_store_value_fails", wellFormed || o.result != .pass),
+      -- converse: everything listed loads and one of them holds a chain certificate -> pass
+      ("pass_if_all_listed_load_and_one_confers",
+        !(wellFormed && wanted.all (loadable w want) && wanted.any (confers w want i.chain)) ||
+          o.result == .pass),
+      -- the store sees only (required type, listed name): no other type, no unlisted store
+      ("only_listed_stores_of_required_type_are_loaded",
+        o.calls.all (fun c => c.ty == want && wanted.contains c.name)),
+      ("each_store_loaded_at_most_once", nodupB names),
+      ("loads_follow_list_order", names.isSublist wanted),
+      -- nothing is loaded after a failed load
+      ("nothing_loaded_after_a_failed_load", names.dropLast.all (loadable w want)),
+      -- a pass has consulted every listed store of the required type
+      ("pass_has_loaded_every_listed_store_of_required_type",
+        o.result != .pass || wanted.all (names.contains ·)),
+      -- enforcement: without authenticity the signature is accepted only where the level logs it
+      ("acceptance_follows_authenticity_and_level",
+        o.accepted == (o.result == .pass || (o.result == .fail && s.level == .audit))) ]
+
+def Holds (i : Input) (o : Obs) : Bool := (clauses i o).holds
+
+def judge := judgeWith run clauses
 
 end NotationModel.C03
